@@ -3144,6 +3144,7 @@ status_t MessageField :: TemplatedUnflatten(Message & unflattenTo, const String 
             MessageRef subMsg = GetMessageFromPool();
             MRETURN_ON_ERROR(subMsg);
 
+            if (itemSize > calcSizeUnflat.GetNumBytesAvailable()) return B_BAD_DATA;  // don't let a bogus item-size make the sub-Message's parser read past the end of our buffer
             DataUnflattener tempUnflat(calcSizeUnflat.GetCurrentReadPointer(), itemSize);
             MRETURN_ON_ERROR(subMsg()->TemplatedUnflatten(*static_cast<const Message *>(GetItemAtAsRefCountableRef(i)()), tempUnflat));
             MRETURN_ON_ERROR(calcSizeUnflat.SeekRelative(itemSize));
